@@ -26,29 +26,36 @@ Definition txt_bc1p : list Z := [98;99;49;112].
 Definition txt_tb1p : list Z := [116;98;49;112].
 Definition txt_bcrt1p : list Z := [98;99;114;116;49;112].
 
-Definition len_in (s : list Z) (a b : nat) : bool :=
-  (length s =? a)%nat || (length s =? b)%nat.
+(* `len(raw) != 21 or raw[0] not in (v1, v2)` (fix 87f2a60) *)
+Definition b58_raw_bad (raw : bytes) (v1 v2 : Z) : bool :=
+  negb (length raw =? 21)%nat || negb ((nth 0 raw 0 =? v1) || (nth 0 raw 0 =? v2)).
 
-(* script.py address_to_script_pubkey: the commands of the object it returns *)
+(* script.py address_to_script_pubkey: the commands of the object it returns.
+   Base58 branches: raw_decode_base58, 21 bytes, version byte 0x00/0x6f (P2PKH) or
+   0x05/0xc4 (P2SH) (fix 87f2a60); segwit branches decide by the length of the decoded
+   program (fix adc6e07); a version-0 program of another length falls through to the final
+   `raise RuntimeError`. *)
 Definition address_to_script_pubkey (s : list Z) : result (list cmd) :=
   let c1 := firstn 1 s in
   if beq c1 [49] || beq c1 [109] || beq c1 [110] then
-    h <- decode_base58 hash256 s ;; Ok (p2pkh_script h)
+    raw <- raw_decode_base58 hash256 s ;;
+    if b58_raw_bad raw 0 111 then Err else Ok (p2pkh_script (skipn 1 raw))
   else if beq c1 [50] || beq c1 [51] then
-    h <- decode_base58 hash256 s ;; Ok (p2sh_script h)
+    raw <- raw_decode_base58 hash256 s ;;
+    if b58_raw_bad raw 5 196 then Err else Ok (p2sh_script (skipn 1 raw))
   else if beq (firstn 4 s) txt_bc1q || beq (firstn 4 s) txt_tb1q || beq (firstn 6 s) txt_bcrt1q then
-    if len_in s 42 44 then
-      '(_, _, h) <- decode_bech32 s ;; Ok (p2wpkh_script h)
-    else if len_in s 62 64 then
-      '(_, _, h) <- decode_bech32 s ;; Ok (p2wsh_script h)
+    '(_, _, h) <- decode_bech32 s ;;
+    if (length h =? 20)%nat then Ok (p2wpkh_script h)
+    else if (length h =? 32)%nat then Ok (p2wsh_script h)
     else Err
   else if beq (firstn 4 s) txt_bc1p || beq (firstn 4 s) txt_tb1p || beq (firstn 6 s) txt_bcrt1p then
-    if negb (len_in s 62 64) then Err
-    else '(_, _, h) <- decode_bech32 s ;; Ok (p2tr_script h)
+    '(_, _, h) <- decode_bech32 s ;;
+    if negb (length h =? 32)%nat then Err else Ok (p2tr_script h)
   else Err.
 
 (* tx.py TxOut.to_address: the script_pubkey of the TxOut it returns
-   (address.startswith(("bc1", "tb1", "bcrt1")) since fix 2063db4) *)
+   (address.startswith(("bc1", "tb1", "bcrt1")) since fix 2063db4; Base58 branches check
+   `len(raw) == 21 and raw[0] in (...)` since fix 87f2a60) *)
 Definition to_address_spk (s : list Z) : result (list cmd) :=
   if starts_with [98;99;49] s || starts_with [116;98;49] s || starts_with [98;99;114;116;49] s then
     '(_, version, h) <- decode_bech32 s ;;
@@ -64,11 +71,11 @@ Definition to_address_spk (s : list Z) : result (list cmd) :=
     | [] => Err                                       (* address[0]: IndexError *)
     | c :: _ =>
         if (c =? 51) || (c =? 50) then
-          h <- decode_base58 hash256 s ;;
-          if (length h =? 20)%nat then Ok (p2sh_script h) else Err
+          raw <- raw_decode_base58 hash256 s ;;
+          if b58_raw_bad raw 5 196 then Err else Ok (p2sh_script (skipn 1 raw))
         else if (c =? 49) || (c =? 109) || (c =? 110) then
-          h <- decode_base58 hash256 s ;;
-          if (length h =? 20)%nat then Ok (p2pkh_script h) else Err
+          raw <- raw_decode_base58 hash256 s ;;
+          if b58_raw_bad raw 0 111 then Err else Ok (p2pkh_script (skipn 1 raw))
         else Err
     end.
 
